@@ -450,3 +450,194 @@ def rule_stream_seek(ctx):
         else:
             ctx.violated("SEEK", key, f.where(), "the backward-seek branch does not re-initialise the coder")
     ctx.floor("SEEK", 3, n, "(stream coder seek functions)")
+
+
+# ---------------------------------------------------------------------------------------
+# position bookkeeping siblings: every storage kind keeps access_rec->posn the same way
+
+
+class MustStore(PathAnalysis):
+    def __init__(self, prog, field):
+        super().__init__(prog)
+        self.field = field
+        self.exits = []
+
+    def init_user(self, func):
+        return False
+
+    def on_stmt(self, func, bid, idx, stmt, env, user):
+        if user:
+            return user
+        for n in walk(stmt["e"]):
+            if n[0] in ("asg",) and mem_field(n[2]) == self.field:
+                return True
+            if n[0] == "incdec" and mem_field(n[3]) == self.field:
+                return True
+        return user
+
+    def on_exit(self, func, bid, retval, env, user):
+        from .flow import classify_ret
+        self.exits.append((classify_ret(retval, self.fails), user))
+
+
+POSN_EXCEPT = {
+    "HRPread": "old-style compressed raster: only whole-image transfers are accepted (length must be 0 or the image size), every transfer "
+               "starts at 0 by definition and posn is never consulted",
+    "HRPwrite": "old-style compressed raster: whole-image transfers only (see HRPread)",
+}
+
+
+def rule_posn_siblings(ctx):
+    """every read / write / seek function of a special-element table updates access_rec->posn on every non-failing path,
+    and Hread / Hwrite / Hseek do the same for plain elements"""
+    from .flow import fail_values
+    prog = ctx.prog
+    tables = _tables(prog)
+    flow = _table_flow(prog, tables)
+    special = flow.get(("accrec_t", "special_func"), set())
+    n = 0
+    targets = []
+    for t in sorted(special):
+        for slot in ("read", "write", "seek"):
+            fn = tables[t][0].get(slot)
+            if fn:
+                targets.append((fn, "%s.%s" % (t, slot)))
+    for fn in ("Hread", "Hwrite", "Hseek"):
+        targets.append((fn, "plain elements"))
+    for fn, role in targets:
+        f = prog.func(fn)
+        key = "POSN:%s" % fn
+        n += 1
+        if f is None:
+            ctx.unrecognised("POSN", key, "-", "slot function %s not found" % fn)
+            continue
+        a = MustStore(prog, ("accrec_t", "posn"))
+        a.fails = fail_values(f, prog)
+        a.run(f)
+        ok_exits = [u for cls, u in a.exits if cls != "fail"]
+        if not ok_exits:
+            ctx.unrecognised("POSN", key, f.where(), "no non-failing exit found")
+        elif all(ok_exits):
+            ctx.holds("POSN", key, f.where(), "%s: access_rec->posn is updated on every non-failing path" % role)
+        else:
+            # delegating wrappers (e.g. the compressed element read calls the coder and updates posn after it) are handled by the
+            # path analysis; a remaining path is a real omission unless the function delegates entirely to another slot function
+            deleg = [c[1] for _, _, _, c in f.calls() if c[1] and any(c[1] == t2 for t2, _ in targets)]
+            for _, _, _, c in f.calls():
+                if c[1] is None:
+                    ce = strip(c[2])
+                    while kind(ce) == "deref":
+                        ce = strip(ce[1])
+                    if mem_field(ce) and mem_field(ce)[0] == "funclist_t" and mem_field(ce)[1] in ("read", "write", "seek"):
+                        deleg.append("special_func->" + mem_field(ce)[1])
+            if fn in POSN_EXCEPT:
+                ctx.excepted("POSN", key, f.where(), POSN_EXCEPT[fn])
+            elif deleg and fn in ("Hread", "Hwrite", "Hseek"):
+                ctx.holds("POSN", key, f.where(), "%s: the special-element path delegates to the slot function (%s), the plain path updates posn" % (role, ", ".join(sorted(set(deleg)))))
+            else:
+                ctx.violated("POSN", key, f.where(), "%s: a non-failing path returns without updating access_rec->posn — the next transfer on this "
+                             "storage kind starts at a stale position" % role)
+    ctx.floor("POSN", 15, n, "(read/write/seek functions of the storage kinds)")
+
+
+# ---------------------------------------------------------------------------------------
+# trailing-pointer idiom: `prev = cur; cur = cur->next;` — if a function keeps a trailing pointer for a list cursor at one
+# advance site, it must do so at every advance site of that cursor (the trailing pointer decides which node gets patched)
+
+
+def _live_after(f, var, cur, fld, line):
+    """is `var` read on some CFG path after the statement `cur = cur->fld` at `line`, before being assigned?"""
+    site = None
+    for bid, i, st in f.stmts():
+        e = strip(st["e"])
+        if kind(e) == "asg" and e[4] == line and kind(strip(e[2])) == "var" and strip(e[2])[1] == cur:
+            site = (bid, i)
+    if site is None:
+        return True  # cannot locate: be conservative
+
+    def uses_defs(e):
+        uses, defs = False, False
+        for x in walk(e, True):
+            if x[0] == "asg" and x[1] == "=" and kind(strip(x[2])) == "var" and strip(x[2])[1] == var:
+                defs = True
+        # reads: any var node not being the pure LHS of a plain assignment
+        cnt = sum(1 for x in walk(e, True) if x[0] == "var" and x[1] == var)
+        lhs = sum(1 for x in walk(e, True) if x[0] == "asg" and x[1] == "=" and kind(strip(x[2])) == "var" and strip(x[2])[1] == var)
+        uses = cnt > lhs
+        return uses, defs
+
+    seen = set()
+    work = [(site[0], site[1] + 1)]
+    while work:
+        bid, idx = work.pop()
+        if (bid, idx) in seen:
+            continue
+        seen.add((bid, idx))
+        b = f.blocks[bid]
+        stop = False
+        for j in range(idx, len(b["s"])):
+            u, d = uses_defs(b["s"][j]["e"])
+            if u:
+                return True
+            if d:
+                stop = True
+                break
+        if stop:
+            continue
+        for sb in b["succ"]:
+            if sb >= 0:
+                work.append((sb, 0))
+    return False
+
+
+def rule_trailing_pointer(ctx, files=None):
+    from .codec import ast_walk
+    prog = ctx.prog
+    n = 0
+    for f in prog.lib_funcs():
+        if files and not f.rel.endswith(tuple(files)):
+            continue
+        blocks = []
+
+        def g(node, st):
+            if node[0] == "block":
+                blocks.append(node[1])
+            return True
+        ast_walk(f.raw.get("ast"), g)
+        adv = []  # (cursor, field, line, preceding statement expr)
+        for ch in blocks:
+            prev = None
+            for c in ch:
+                e = strip(c[1]) if c[0] == "s" else None
+                if e is not None and kind(e) == "asg" and e[1] == "=" and kind(strip(e[2])) == "var":
+                    cur = strip(e[2])[1]
+                    r = strip(e[3])
+                    if kind(r) == "mem" and r[5] and kind(strip(r[1])) == "var" and strip(r[1])[1] == cur:
+                        adv.append((cur, r[2], e[4], prev))
+                prev = e
+        pairs = {}
+        for cur, fld, line, prev in adv:
+            if prev is not None and kind(prev) == "asg" and prev[1] == "=" and kind(strip(prev[2])) == "var" and \
+                    kind(strip(prev[3])) == "var" and strip(prev[3])[1] == cur:
+                pairs[(cur, fld)] = strip(prev[2])[1]
+        for (cur, fld), trail in sorted(pairs.items()):
+            ordn = 0
+            for c2, f2, line, prev in adv:
+                if (c2, f2) != (cur, fld):
+                    continue
+                ordn += 1
+                n += 1
+                key = "TRAIL:%s:%s#%d" % (f.name, cur, ordn)
+                ok = (prev is not None and kind(prev) == "asg" and kind(strip(prev[2])) == "var" and strip(prev[2])[1] == trail
+                      and kind(strip(prev[3])) == "var" and strip(prev[3])[1] == cur)
+                if not ok and not _live_after(f, trail, cur, fld, line):
+                    ctx.holds("TRAIL", key, f.where(line), "plain traversal: `%s` is not read again after this advance before it is re-assigned" % trail,
+                              nontrivial=True)
+                    continue
+                if ok:
+                    ctx.holds("TRAIL", key, f.where(line), "`%s = %s;` precedes `%s = %s->%s`" % (trail, cur, cur, cur, fld))
+                else:
+                    ctx.violated("TRAIL", key, f.where(line), "`%s = %s->%s` advances the cursor without `%s = %s;` immediately before it, although "
+                                 "this function keeps `%s` as the trailing pointer at its other advance site(s): `%s` then designates a stale "
+                                 "node and the wrong list element gets updated" % (cur, cur, fld, trail, cur, trail, trail))
+    return n
